@@ -7,7 +7,7 @@
 # ./check <property>, undo  4. write meta.json
 name=$1; pid=${name%%_*}; src=${2:-/tmp/wt-out/$name}
 . /verif/env.sh
-if [ -n "$(git -C /repo status --porcelain)" ]; then echo "refusing: /repo has uncommitted changes (commit them first)"; exit 9; fi
+# (works on a scratch worktree of /repo's HEAD: uncommitted contract edits in /repo are NOT seen)
 out=/verif/seeded/$name; mkdir -p $out
 if [ -f $src/patch.diff ]; then
   cp $src/patch.diff $out/patch.diff
@@ -36,11 +36,11 @@ go build ./... 2>&1 | tail -3 && res "build with change: ok"
 s1=$(go test -vet=off -count=1 -timeout 1200s -skip TestSeededDemo ./... 2>&1 | grep -v "no test files" | tail -4); echo "$s1" | grep -q "FAIL" && res "existing suite with change: FAIL ($s1)" || res "existing suite with change: PASS"
 d1=$(go test -vet=off -count=1 -timeout 600s -run '^TestSeededDemo' $pkg 2>&1 | tail -15); echo "$d1" | grep -q "FAIL" && res "demo with change: FAIL (as required)" || res "demo with change: PASS (not a valid seed)"
 echo "$d1" > $out/demo_output_with_change.txt
-cd /verif; git -C /repo worktree remove --force $sv; rm -rf $sv
-# our check
-git -C /repo apply $out/patch.diff
-chk=$(VERIF_NO_EVIDENCE=1 ./check $pid --tier quick 2>&1); rc=$?
-git -C /repo checkout -- . ; git -C /repo clean -fdq
+# our check, against the scratch worktree with the change applied (VERIF_REPO), so /repo is not touched
+cd $sv; rm -f $demodir/zz_seeded_demo_test.go
+cd /verif
+chk=$(VERIF_REPO=$sv VERIF_WORK=/verif/work/seed-$name VERIF_NO_EVIDENCE=1 ./check $pid --tier quick 2>&1); rc=$?
+git -C /repo worktree remove --force $sv; rm -rf $sv /verif/work/seed-$name
 echo "$chk" | grep -E "VIOLATION|UNDECIDED|failed obligation|^property" | cut -c1-260 | tee $out/check_output.txt
 res "check exit code: $rc"
 python3 - "$name" "$pid" "$out" "$rc" <<'PY'
@@ -57,7 +57,7 @@ if "needs_to_manifest" not in meta:
     meta["needs_to_manifest"] = (m.group(1).strip()[:900] if m else "see notes.md")
 meta["confirmed"] = [l.strip() for l in open(os.path.join(out, "confirm.log")) if l.strip()]
 meta["ran"] = ["git apply patch.diff in a scratch worktree of /repo HEAD", "go build ./...", "go test -vet=off -count=1 -skip TestSeededDemo ./... (existing suite, module of the change)",
-               "go test -run '^TestSeededDemo' with and without the change", "git -C /repo apply patch.diff; ./check %s --tier quick; git -C /repo checkout -- ." % pid]
+               "go test -run '^TestSeededDemo' with and without the change", "./check %s --tier quick against the worktree with the change applied (VERIF_REPO); the same patch is applied to /repo itself by seedall.sh" % pid]
 co = open(os.path.join(out, "check_output.txt")).read()
 meta["caught_by_obligations"] = re.findall(r"failed obligation: (\S+)", co)
 meta["check_exit_code"] = int(rc)
